@@ -140,4 +140,12 @@ LEVEL = {
              "Engine::generator agreeing with Labels::load_from_strings) and by bitwise waveform equality across the four input forms.",
         note="Trusted: Lean kernel; axioms ⊆ {propext, Classical.choice, Quot.sound}; jlabel and std float parsing are parameters whose verdicts are supplied per case.",
     ),
+    "C03": dict(
+        text="Partial. Theorems: schedule irrelevance (any interleaving of call-local state machines over one read-only engine value gives each caller the outputs "
+             "and final state of running alone); a setter history equals its last call per setting and calls on different settings commute; synthesis in the model is "
+             "a function of (condition value, voice-derived inputs, labels) and returns no engine. What a theorem cannot exhibit — real interleavings, data races, a "
+             "hidden static — is carried by Rust's type system (Engine: Send+Sync asserted at compile time; source scan for interior mutability recorded) and by running "
+             "2..16 threads on one shared engine with staggered starts, comparing every waveform bitwise with the sequential run.",
+        note="Trusted: Lean kernel; axioms ⊆ {propext, Classical.choice, Quot.sound}; OS scheduler and allocator are sampled; the model's purity is by construction and tied through C01's correspondence.",
+    ),
 }
